@@ -882,7 +882,9 @@ func c17ErrorText(c *Ctx, exec *ssa.Function) {
 			}
 			c.R.Check(okFmt, "R-status-in-text", construct, c.Pos(call.Pos()), "the status code is rendered in a form the classifier recognises",
 				sprintf("%s renders the HTTP status with format %q, which IsRetryableError does not recognise: 5xx/408/409/429 answers would not be retried", fname(fn), format))
-			if bodyIdx >= 0 {
+			if bodyIdx >= 0 && classifiedByCode(c, call) {
+				c.R.Hold("R-body-taint", construct, c.Pos(call.Pos()), "the error is wrapped in a typed status error that the classifier judges by its code alone; its text is not inspected")
+			} else if bodyIdx >= 0 {
 				c.R.Violate("R-body-taint", construct, c.Pos(call.Pos()),
 					sprintf("%s appends the response BODY to the error text that IsRetryableError substring-matches: a non-retryable answer (e.g. 403) whose body contains text like \"503 \" is retried", fname(fn)))
 			} else {
@@ -913,6 +915,91 @@ func derivesFromBody(v ssa.Value, d int) bool {
 			if derivesFromBody(e, d+1) {
 				return true
 			}
+		}
+	}
+	return false
+}
+
+// classifiedByCode: the error built by this Errorf call is stored into a member of a freshly allocated library
+// struct T, T also receives the response's StatusCode in another member, and the retry classifier handles T through
+// errors.As and returns on that edge before it looks at any error text.
+func classifiedByCode(c *Ctx, errf *ssa.Call) bool {
+	classify := c.P.Func(retryPkg, "IsRetryableError")
+	if classify == nil || errf.Referrers() == nil {
+		return false
+	}
+	for _, r := range *errf.Referrers() {
+		st, ok := r.(*ssa.Store)
+		if !ok {
+			continue
+		}
+		f, base, ok := ir.FieldOf(st.Addr)
+		if !ok || f.Struct == nil || !ir.BaseAlloc(base) {
+			continue
+		}
+		// the same object carries the status code
+		hasCode := false
+		al, _ := base.(*ssa.Alloc)
+		if al == nil {
+			continue
+		}
+		for _, rr := range *al.Referrers() {
+			fa, ok := rr.(*ssa.FieldAddr)
+			if !ok || fa.Referrers() == nil {
+				continue
+			}
+			for _, r2 := range *fa.Referrers() {
+				if s2, ok := r2.(*ssa.Store); ok && fieldLoadNamed(ir.Unwrap(s2.Val), "StatusCode") {
+					hasCode = true
+				}
+			}
+		}
+		if !hasCode {
+			continue
+		}
+		// the classifier: errors.As(err, &target) with target of type *T, true edge reaches a return without touching text
+		okAs := false
+		ir.EachInstr(classify, func(_ *ssa.BasicBlock, _ int, in ssa.Instruction) {
+			as, ok := in.(*ssa.Call)
+			if !ok || ir.CallName(as) != "errors.As" || len(as.Call.Args) != 2 {
+				return
+			}
+			tgt := ir.Unwrap(as.Call.Args[1])
+			pt, ok := tgt.Type().(*types.Pointer)
+			if !ok {
+				return
+			}
+			pt2, ok := pt.Elem().(*types.Pointer)
+			if !ok {
+				return
+			}
+			nt, ok := pt2.Elem().(*types.Named)
+			if !ok || nt != f.Struct {
+				return
+			}
+			for _, rr := range *as.Referrers() {
+				ifi, ok := rr.(*ssa.If)
+				if !ok {
+					continue
+				}
+				textTouched := false
+				for b := range flow.BlocksReachableAvoiding(ifi.Block().Succs[0], map[*ssa.BasicBlock]bool{}) {
+					for _, x := range b.Instrs {
+						if cl, ok := x.(*ssa.Call); ok {
+							n := ir.CallName(cl)
+							if strings.HasPrefix(n, "strings.") || strings.HasSuffix(n, ").Error") {
+								textTouched = true
+							}
+						}
+					}
+				}
+				if !textTouched {
+					okAs = true
+				}
+			}
+		})
+		if okAs {
+			return true
 		}
 	}
 	return false
